@@ -1130,6 +1130,11 @@ class qsbr final {
   /// Synchronizes with qsbr::epoch_change_barrier_and_handle_orphans.
   static void thread_epoch_change_barrier() noexcept;
 
+  /// Synchronization barrier for the thread changing the epoch.
+  ///
+  /// Synchronizes with qsbr::thread_epoch_change_barrier.
+  static void epoch_change_barrier() noexcept;
+
   /// Synchronize threads and handle orphaned requests.
   ///
   /// Synchronizes with qsbr::thread_epoch_change_barrier.
